@@ -389,7 +389,7 @@ def l8(ctx):
 
 
 # --------------------------------------------------------------------- L6
-@rule('L6', floor=4, title='connections are thread-local and re-opened when the process id changes')
+@rule('L6', floor=5, title='connections are thread-local and re-opened when the process id changes')
 def l6(ctx):
     con = ctx.prog.roles['con_getter']
     init = ctx.method('Cache', '__init__')
@@ -413,6 +413,22 @@ def l6(ctx):
     obs.append(Ob('L6', 'connection-stored-on-threading.local', bool(holder) and not str(holder).startswith('!')
                   and is_local, 'the SQLite connection is not stored (only) on a threading.local attribute: two '
                   'threads would share one connection and one transaction state', con.loc()))
+    # the connection is opened in autocommit mode (explicit BEGIN IMMEDIATE needs it) with the object's timeout
+    okc, nc = True, 0
+    for p in ctx.paths(con, 'plain'):
+        for ev in p.trace:
+            if ev.kind == 'EXT' and ev.d['name'] == 'sqlite3.connect':
+                nc += 1
+                iso = ev.d['kwargs'].get('isolation_level')
+                to = ev.d['kwargs'].get('timeout')
+                if not (iso is not None and iso.is_const and iso.val is None):
+                    okc = False
+                if not (to is not None and to.k == 'selfattr' and to.a[1] == '_timeout'):
+                    okc = False
+    obs.append(Ob('L6', 'connect-autocommit-with-timeout', okc and nc > 0,
+                  'sqlite3.connect is not called with isolation_level=None and timeout=self._timeout: implicit '
+                  'transactions of the sqlite3 module would hold or break the explicit BEGIN IMMEDIATE protocol, or the '
+                  'configured lock timeout would not apply', con.loc()))
     # pid check: mismatch -> close and re-stamp
     ok = True
     wit = None
